@@ -132,29 +132,7 @@ pub fn gen_case(run_seed: u64, _tier: Tier) -> QvbCase {
     QvbCase { init, ops }
 }
 
-/// An iterator whose `size_hint` is legal but unhelpful: the bounds enclose the true length, nothing more.
-/// (An early-stopping adaptor over a huge range looks like this.)
-struct Hinted<I> {
-    inner: I,
-    style: u8,
-}
-
-impl<I: Iterator> Iterator for Hinted<I> {
-    type Item = I::Item;
-    fn next(&mut self) -> Option<I::Item> {
-        self.inner.next()
-    }
-    fn size_hint(&self) -> (usize, Option<usize>) {
-        let (lo, _) = self.inner.size_hint();
-        match self.style {
-            0 => self.inner.size_hint(),
-            1 => (0, None),
-            2 => (0, Some(usize::MAX)),
-            3 => (lo.min(1), Some(1usize << 62)),
-            _ => (0, Some((1usize << 63) + 5)),
-        }
-    }
-}
+use crate::core::Hinted;
 
 macro_rules! with_ty {
     ($ty:expr, $vals:expr, |$it:ident| $body:expr) => {
@@ -229,6 +207,47 @@ fn observe(qv: &QVector, m: &[u8], at: &str, out: &mut RunOut, digest: &mut Dige
             }
         }
         Err(msg) => out.violate(sig("iter", panic_kind(&msg), "general"), format!("{at}: iter() panicked: {msg}")),
+    }
+    // `for x in &qv` (IntoIterator for &QVector), bounded in case it does not end
+    match catch(|| (&*qv).into_iter().take(n + 64).collect::<Vec<u8>>()) {
+        Ok(v) => {
+            if v != m {
+                let first = v.iter().zip(m).position(|(a, b)| a != b).unwrap_or(v.len().min(m.len()));
+                out.violate(
+                    sig("ref_into_iter", "wrong_value", "general"),
+                    format!("{at}: (&qv).into_iter() yields {} symbols and first differs from the pushed values at index {first} (len()={n})", v.len()),
+                );
+            }
+        }
+        Err(msg) => out.violate(sig("ref_into_iter", panic_kind(&msg), "general"), format!("{at}: (&qv).into_iter() panicked: {msg}")),
+    }
+    // the unchecked reader inside its precondition (i < len), and a clone compares equal and reads the same
+    if n > 0 {
+        for i in [0, n / 2, n - 1, (n - 1) / 256 * 256, (n - 1) / 128 * 128] {
+            // SAFETY: i < n
+            match catch(|| unsafe { qv.get_unchecked(i) }) {
+                Ok(g) => {
+                    if g != m[i] {
+                        chk(out, "get_unchecked", format!("{g}"), format!("{}", m[i]), format!("get_unchecked({i}) with len()={n}"));
+                    }
+                }
+                Err(msg) => out.violate(sig("get_unchecked", panic_kind(&msg), "general"), format!("{at}: get_unchecked({i}) with len()={n} panicked: {msg}")),
+            }
+        }
+    }
+    match catch(|| {
+        let c = qv.clone();
+        (c == *qv, c.len(), c.iter().take(n + 64).collect::<Vec<u8>>())
+    }) {
+        Ok((eq, l, v)) => {
+            if !eq || l != n || v != m {
+                out.violate(
+                    sig("clone", "wrong_value", "general"),
+                    format!("{at}: a clone of the vector compares equal: {eq}, has len() {l} (expected {n}) and yields {} symbols", v.len()),
+                );
+            }
+        }
+        Err(msg) => out.violate(sig("clone", panic_kind(&msg), "general"), format!("{at}: clone / == panicked: {msg}")),
     }
     // internal iteration (fold: what for_each / sum / count use) on a partly consumed iterator, borrowing and consuming
     for k in [0usize, 1, n / 3, n.saturating_sub(1)] {
@@ -326,7 +345,7 @@ pub fn exec(case: &QvbCase) -> RunOut {
         m = low2(vals);
         out.count("init.VectorFromIter", 1);
         out.count(&format!("extend_ty.{ty:?}"), 1);
-        let style = (vals.len() % 5) as u8;
+        let style = (vals.len() % 6) as u8;
         out.count(&format!("size_hint_style.{style}"), 1);
         match catch(|| with_ty!(*ty, vals, |it| Hinted { inner: it, style }.collect::<QVector>())) {
             Ok(qv) => observe(&qv, &m, "QVector::from_iter", &mut out, &mut digest),
@@ -345,7 +364,7 @@ pub fn exec(case: &QvbCase) -> RunOut {
         QInit::New => QVectorBuilder::new(),
         QInit::WithCapacity(k) => QVectorBuilder::with_capacity(*k),
         QInit::BuilderFromIter(ty, vals) => {
-            let style = (vals.len() % 5) as u8;
+            let style = (vals.len() % 6) as u8;
             with_ty!(*ty, vals, |it| Hinted { inner: it, style }.collect::<QVectorBuilder>())
         }
         QInit::VectorFromIter(..) => unreachable!(),
@@ -369,7 +388,7 @@ pub fn exec(case: &QvbCase) -> RunOut {
             match op {
                 QOp::Push(v) => y.push(*v),
                 QOp::Extend(ty, vals) => {
-                    let style = (vals.len() % 5) as u8;
+                    let style = (vals.len() % 6) as u8;
                     with_ty!(*ty, vals, |it| y.extend(Hinted { inner: it, style }))
                 }
                 QOp::Clone => {
